@@ -1,7 +1,100 @@
-(* Property C07 — placeholder while the proofs are being written (see Cs.v). *)
-From Coq Require Import List NArith ZArith.
-From PitCs Require Import Model Spec.
+(* Property C07 — the Content Store answers only with matching, fresh-enough Data, within capacity.
+   Only theorem statements closed by `exact`, each followed by Print Assumptions.
+
+   Reading guide.  `start t0 cap serve admit life` is the initial state of a forwarding thread; `run s ops` applies a
+   history of operations (Model.op: time passing, capacity changes through management, InsertData and
+   FindMatchingDataFromCS at the table API, incoming Interests and Data through the pipeline, the PIT reaper and the DNL
+   sweep) — every theorem below is for EVERY history, every capacity, every name universe.  `cache_of s` is the cache as
+   the statement of C07 sees it: the list of (name, wire, stale-at) in recency order, least recently used first.
+   `find_cs s n cbp mbf` is FindMatchingDataFromCS: new state and the list of answers the code may give ([] = nil; more
+   than one only for CanBePrefix, where Go map order decides). *)
+From Coq Require Import List NArith ZArith Bool.
+From PitCs Require Import Model Spec Lib TreeInv Cs CacheSpec C07.
 Import ListNotations.
 Open Scope Z_scope.
-Example c07_example : c_judge (c_insert (c_init 0 2) [1%N;2%N] 7 (Some 5%N)) [1%N;2%N] false true (Some ([1%N;2%N], 7%N)) = 0%N.
-Proof. vm_compute. reflexivity. Qed.
+
+(* The model's Content Store IS the recency-ordered cache of Spec.v run over the same history: inserts and refreshes
+   (c_insert), exact-name hits (c_exact) move an entry to the most-recent end, CanBePrefix hits and everything else leave
+   the order alone, a new name evicts from the least-recent end down to the current capacity. *)
+Theorem cs_refines : forall t0 c sv ad life ops,
+  cache_of (run (start t0 c sv ad life) ops) = cache_run (c_init t0 c) (trace_of (start t0 c sv ad life) ops).
+Proof. exact refines. Qed.
+Print Assumptions cs_refines.
+
+(* A lookup returns only a cached packet whose name equals the Interest name, or extends it when CanBePrefix is set, and,
+   when MustBeFresh is set, only one that is not yet stale. *)
+Theorem cs_sound : forall t0 c sv ad life ops n cbp mbf e,
+  let s := run (start t0 c sv ad life) ops in
+  In e (snd (find_cs s n cbp mbf)) ->
+  (if cbp then exists r, cs_name e = n ++ r else cs_name e = n) /\
+  exists e', In e' (c_list (cache_of s)) /\ cs_name e' = cs_name e /\ cs_wire e' = cs_wire e /\ (mbf = true -> now s < cs_stale e').
+Proof. exact sound. Qed.
+Print Assumptions cs_sound.
+
+(* The bytes returned are those most recently inserted under that name in the history, and "stale" means: the freshness
+   period counted from that insertion has elapsed (latest = wire and insertion-time + FreshnessPeriod of the last
+   insertion under the name; clock = time of the history). *)
+Theorem cs_bytes_latest : forall t0 c sv ad life ops n cbp mbf e,
+  let s := run (start t0 c sv ad life) ops in
+  In e (snd (find_cs s n cbp mbf)) ->
+  exists stale, latest t0 (trace_of (start t0 c sv ad life) ops) (cs_name e) = Some (cs_wire e, stale) /\
+                (mbf = true -> clock t0 (trace_of (start t0 c sv ad life) ops) < stale).
+Proof. exact bytes_latest. Qed.
+Print Assumptions cs_bytes_latest.
+
+(* Inserting a packet under a new name leaves at most the CURRENT capacity of packets cached (whatever the capacity was
+   before: `cap s` is what management last set), and the reported size is the true size ... *)
+Theorem cs_capacity_after_new_insert : forall t0 c sv ad life ops n w f,
+  let s := run (start t0 c sv ad life) ops in
+  c_lookup (c_list (cache_of s)) n = None ->
+  let s' := insert_data s n w f in
+  ncs s' = Z.of_nat (length (c_list (cache_of s'))) /\ ncs s' <= Z.of_N (cap s).
+Proof. exact capacity_after_new_insert. Qed.
+Print Assumptions cs_capacity_after_new_insert.
+
+(* ... also when the packet arrives through the Data pipeline *)
+Theorem cs_capacity_after_new_data : forall t0 c sv ad life ops n w f tok,
+  let s := run (start t0 c sv ad life) ops in
+  admitting s = true -> c_lookup (c_list (cache_of s)) n = None ->
+  let s' := process_data s n w f tok in
+  ncs s' = Z.of_nat (length (c_list (cache_of s'))) /\ ncs s' <= Z.of_N (cap s).
+Proof. exact capacity_after_new_data. Qed.
+Print Assumptions cs_capacity_after_new_data.
+
+(* Eviction removes the least recently inserted / refreshed / exact-hit entries: exactly the first k of the recency order,
+   k = the excess over the current capacity. *)
+Theorem cs_evicts_lru : forall t0 c sv ad life ops n w f,
+  let s := run (start t0 c sv ad life) ops in
+  c_lookup (c_list (cache_of s)) n = None ->
+  c_list (cache_of (insert_data s n w f)) =
+  skipn (length (c_list (cache_of s)) + 1 - N.to_nat (cap s)) (c_list (cache_of s) ++ [mkcs n w (stale_of s f)]).
+Proof. exact evicts_lru. Qed.
+Print Assumptions cs_evicts_lru.
+
+(* A packet that is cached, unevicted and fresh (or MustBeFresh not set) is always found by an exact-name lookup. *)
+Theorem cs_exact_complete : forall t0 c sv ad life ops n mbf e,
+  let s := run (start t0 c sv ad life) ops in
+  c_lookup (c_list (cache_of s)) n = Some e -> (mbf = true -> now s < cs_stale e) ->
+  snd (find_cs s n false mbf) = [e].
+Proof. exact exact_complete. Qed.
+Print Assumptions cs_exact_complete.
+
+(* The extracted oracle c_judge means what it says (used by the runner on the implementation's answers). *)
+Theorem c_judge_meaning : forall c n cbp mbf m w, c_judge c n cbp mbf (Some (m, w)) = 0%N ->
+  (if cbp then exists r, m = n ++ r else m = n) /\
+  exists e, In e (c_list c) /\ cs_name e = m /\ cs_wire e = w /\ (mbf = true -> c_now c < cs_stale e).
+Proof. exact c_judge_some_meaning. Qed.
+Print Assumptions c_judge_meaning.
+
+(* non-vacuity: capacity 2, three inserts, an exact hit, a capacity change; /1/2 is evicted as least recently used,
+   a CanBePrefix lookup for /1 finds /1/3, a MustBeFresh lookup after the freshness period finds nothing *)
+Example c07_example :
+  let ops := [OIns [1;2]%N 7 (Some 5%N); OIns [1;3]%N 8 (Some 50%N); OFind [1;2]%N false false; OIns [4]%N 9 None;
+              OAdv 10; OCap 1; OIns [5]%N 10 (Some 1%N)] in
+  let s := run (start 100 2 true true 6000) ops in
+  map cs_name (c_list (cache_of s)) = [[5%N]] /\
+  map cs_name (c_list (cache_of (run (start 100 2 true true 6000) (firstn 4 ops)))) = [[1;2]%N; [4%N]] /\
+  snd (find_cs (run (start 100 2 true true 6000) (firstn 2 ops)) [1%N] true false) <> [] /\
+  snd (find_cs s [5%N] false true) <> [] /\
+  snd (find_cs (run s [OAdv 1]) [5%N] false true) = [].
+Proof. vm_compute. repeat split; discriminate. Qed.
